@@ -28,7 +28,7 @@ type Case struct {
 func TestMain(m *testing.M) {
 	h.Setup("C18",
 		"F-core ASTs (with nested inline on/off groups) and corpus patterns x all 32 subsets O of {i,m,s,n,x} x pattern-directed inputs x every start offset; one evaluation = one (pattern,O,input,offset) on which Compile(P,O), Compile((?O)P) and Compile((?O:P)) must give equal matches and captures (FindRunesMatchStartingAt), equal MatchString and FindAllRunesIndex results (the entry points that may run the capture-free program), group numbers and names, and the switch-style printing (?:(?o)X) of every scoped group (?o:X) must agree with the scoped printing; non-trivial = O changes the result of this (input,offset) compared with O = {} (so the agreement is not vacuous); distinct = hash of (pattern, O, input, offset)",
-		map[string]float64{"option-matters": 0.05, "match": 0.15, "has-inline/patterns": 0.2, "O-nonempty/patterns": 0.8},
+		map[string]float64{"option-matters": 0.05, "match": 0.15, "has-inline/patterns": 0.2, "O-nonempty/patterns": 0.6},
 		"IgnorePatternWhitespace only changes how the pattern text is read: the text contains insignificant blanks and comments exactly when x is in O")
 	h.Ceiling("compile-error", 0.10)
 	h.Main(m)
